@@ -24,6 +24,8 @@ STOPPED = "sd.ClientServiceListener.service_stopped"
 
 
 def check(run, prog, tier):
+    from . import model as _model
+    _model.audit(run, prog, 'C05')
     # the listener view is derived from the live store and filter tables
     cache_coherence(run, prog, "A4", ['sd.ServiceDiscover', 'sd.TimedStore'])
     run.explanation = (
